@@ -61,28 +61,31 @@ NextHash(p, h, sib) ==
   ELSE IF sib = Empty THEN h
   ELSE IF IsLeft(p) THEN H(h, sib) ELSE H(sib, h)
 
-Reject == [ok |-> FALSE, cands |-> <<>>, used |-> 0]
+Reject == [ok |-> FALSE, cands |-> <<>>, used |-> 0, seen |-> <<>>]
 
 \* work: pairs sorted by position; pf: the proof; k: proof hashes used so far
-RECURSIVE Run(_, _, _, _, _)
-Run(x, work, pf, k, cands) ==
-  IF work = <<>> THEN [ok |-> TRUE, cands |-> cands, used |-> k]
+\* seen: every pair processed (claims, computed ancestors, roots), in position order
+RECURSIVE RunS(_, _, _, _, _, _)
+RunS(x, work, pf, k, cands, seen) ==
+  IF work = <<>> THEN [ok |-> TRUE, cands |-> cands, used |-> k, seen |-> seen]
   ELSE LET cur  == Head(work)
            rest == Tail(work)
        IN
        \* the same position twice: a duplicated claim, or a claim at a computed position
        IF Variant \notin {"dup", "nested"} /\ rest # <<>> /\ Head(rest).pos = cur.pos THEN Reject
-       ELSE IF IsRoot(x, cur.pos) THEN Run(x, rest, pf, k, Append(cands, cur))
+       ELSE IF IsRoot(x, cur.pos) THEN RunS(x, rest, pf, k, Append(cands, cur), Append(seen, cur))
        ELSE LET sibHere == rest # <<>> /\ Head(rest).pos = Sib(cur.pos)
                 \* (defective variants: a pair at the same position is taken for the sibling of an odd position)
                 sameAsSib == Variant \in {"dup", "nested"} /\ rest # <<>> /\ Head(rest).pos = cur.pos /\ ~IsLeft(cur.pos)
             IN IF sibHere \/ sameAsSib
-               THEN Run(x, InsertSorted(Tail(rest), Pair(Par(cur.pos), NextHash(cur.pos, cur.hash, Head(rest).hash))),
-                        pf, k, cands)
+               THEN RunS(x, InsertSorted(Tail(rest), Pair(Par(cur.pos), NextHash(cur.pos, cur.hash, Head(rest).hash))),
+                         pf, k, cands, seen \o <<cur, Head(rest)>>)
                ELSE IF k >= Len(pf) THEN Reject
                ELSE IF Variant # "zero" /\ pf[k + 1] = Empty THEN Reject
-               ELSE Run(x, InsertSorted(rest, Pair(Par(cur.pos), NextHash(cur.pos, cur.hash, pf[k + 1]))),
-                        pf, k + 1, cands)
+               ELSE RunS(x, InsertSorted(rest, Pair(Par(cur.pos), NextHash(cur.pos, cur.hash, pf[k + 1]))),
+                         pf, k + 1, cands, Append(seen, cur))
+
+Run(x, work, pf, k, cands) == RunS(x, work, pf, k, cands, <<>>)
 
 SortedClaims(hs, tg) ==
   SetToSortSeq({<<i, Pair(tg[i], hs[i])>> : i \in 1..Len(hs)},
